@@ -276,6 +276,16 @@ SPECS = {
         ('hagenbach_bischoff_rounded', 'hagenbach_bischoff_rounded', [('votes', 'votes', 'Rat'), ('seats', 'seats', 'Nat')], 'Rat', None),
         ('imperiali', 'imperiali', [('votes', 'votes', 'Rat'), ('seats', 'seats', 'Nat')], 'Rat', None),
     ]),
+    'Threshold': ('votelib/evaluate/threshold.py', [
+        # the filter condition of `return [cand for cand, n_votes in sorted_votes(votes) if <cond>]`
+        ('AbsoluteThreshold.evaluate#cond', 'abs_threshold_passes',
+         [('self.threshold', 'threshold', 'Rat'), ('self.accept_equal', 'accept_equal', 'Bool'), ('n_votes', 'n_votes', 'Rat')],
+         'Bool', None),
+        ('RelativeThreshold.evaluate#cond', 'rel_threshold_passes',
+         [('self.threshold', 'threshold', 'Rat'), ('self.accept_equal', 'accept_equal', 'Bool'), ('total', 'total', 'Rat'),
+          ('n_votes', 'n_votes', 'Rat')],
+         'Bool', None),
+    ]),
     'RankScore': ('votelib/component/rankscore.py', [
         ('Borda.set_n_candidates', 'borda_scores',
          [('self.base', 'base', 'Int'), ('n_candidates', 'n_candidates', 'Nat')], 'List Rat', 'self._scores'),
@@ -295,22 +305,32 @@ def translate_module(modname):
            'import VotelibModel.Py', 'namespace VL.Gen.' + modname, 'open VL', '']
     funcs = {}
     for path, lname, params, rtype, result_attr in items:
-        node = find_def(tree, path)
+        cond_only = path.endswith('#cond')
+        node = find_def(tree, path.split('#')[0])
         if not isinstance(node, ast.FunctionDef):
             raise TranslateError(f'{path} is not a function')
         env = {}
         declared = {p for p, _, _ in params}
         for p, ln, t in params:
             env[p] = (ln, t)
-        for a in node.args.args:
-            if a.arg == 'self':
-                continue
-            if a.arg not in declared:
-                raise TranslateError(f'{path}: unexpected parameter {a.arg}')
         tr = Tr(env, funcs)
-        body = list(node.body)
-        # procedures: `self.n_candidates = n_candidates` style bookkeeping is kept as lets
-        term = tr.body(body, rtype, result_attr)
+        if cond_only:
+            comps = [n for st in node.body if isinstance(st, ast.Return) for n in ast.walk(st) if isinstance(n, ast.ListComp)]
+            if len(comps) != 1 or len(comps[0].generators) != 1 or len(comps[0].generators[0].ifs) != 1:
+                raise TranslateError(f'{path}: expected one list comprehension with one condition')
+            e, t = tr.expr(comps[0].generators[0].ifs[0])
+            if t != 'Bool':
+                raise TranslateError(f'{path}: condition is not boolean')
+            term = e
+        else:
+            for a in node.args.args:
+                if a.arg == 'self':
+                    continue
+                if a.arg not in declared:
+                    raise TranslateError(f'{path}: unexpected parameter {a.arg}')
+            body = list(node.body)
+            # procedures: `self.n_candidates = n_candidates` style bookkeeping is kept as lets
+            term = tr.body(body, rtype, result_attr)
 
         def lt(t):
             if t.startswith('Fn:'):
